@@ -813,4 +813,27 @@ CHECKS["C12"] = make_check("C12", c12_plans,
     "TLC-generated interleaved histories over 2..3 logs followed, on fresh witnesses with the same keys and origins, by each log's sub-history alone: per-log abstract state and a digest of "
     "text + log signature + deterministic witness signature must be equal (AloneEqualsInterleaved). The identity half (one id function on every interface, duplicate ids refused) is checked by "
     "the start-up family (see level_note); distinct = distinct update steps by (state, request, verdict)", any_update,
-    post_all=lambda work, rep, tier, seed: __import__("checks_omni").startup_part(work, rep, tier, seed, "C12"))
+    post_all=lambda work, rep, tier, seed: c12_more(work, rep, tier, seed))
+
+
+def c12_more(work, rep, tier, seed):
+    import checks_omni, checks_ops, opsfam
+    checks_omni.startup_part(work, rep, tier, seed, "C12")
+    # "a checkpoint of one log is never stored under or served for another ID" also when requests for DIFFERENT logs overlap: many goroutines submit
+    # growth, duplicates, forks and refreshes for two logs at the same time, run after run in one process (whatever the stores keep per process - pools,
+    # caches - is shared by all of them), on both stores; Trace_Hist: what each log holds at the end is a checkpoint that was accepted FOR THAT LOG
+    rng = random.Random(seed * 1013 + 12)
+    n = 0
+    for store, nruns in (("inmem", 250 if tier == "quick" else 2500), ("sqlfile", 40 if tier == "quick" else 400)):
+        runs = [{"id": "iso%s-%d" % (store, j), "mode": "free", "db0": opsfam.db0_of("none"), "prog": checks_ops.random_programs(rng, 8, 8), "sched": []} for j in range(nruns)]
+        rp, tp = work.path("iso-%s.jsonl" % store), work.path("iso-%s.ndjson" % store)
+        write_runs(rp, opsfam.OPS_PARAMS, runs)
+        o, dt = run_driver(["ops", "-in", rp, "-out", tp, "-store", store, "-seed", str(seed), "-workers", "4", "-dir", work.sub("db")])
+        rep.notes.append("overlapping requests for different logs/" + o.strip())
+        events = read_ndjson(tp)
+        fails = opsfam.hist_judge(work, rep, tp, 8, name="hist-iso-" + store)
+        settle(rep, "C12", fails, events, dict(opsfam.OPS_BASE), extra_replay={"store": store, "kind": "overlapping requests for different logs"})
+        n += nruns
+        rep.cov["evaluations"] += sum(1 for e in events if e.get("e") == "ret")
+    rep.cov["runs_of_overlapping_requests_for_different_logs"] = n
+    rep.cov["traces_validated_against_impl"] += n
